@@ -12,6 +12,9 @@ Fixpoint first_min_row (nf : amp -> Q) (best : row) (l : list row) : row :=
   | x :: t => if qltb (nf (r_amp x)) (nf (r_amp best)) then first_min_row nf x t else first_min_row nf best t
   end.
 
+(* edfa_nf: template-matched whole (a fresh Edfa of the entry at the required gain, its _calc_nf); network.py keeps no state between calls (check_stateless) *)
+Definition g_nf_of_entry_at_hand : bool := true.
+
 (* filter_edfa_list_based_on_targets: translated expressions *)
 Definition g_pin (pt gain : Q) : Q := (pt - gain).
 Definition g_edfa_power (ext gain pt : Q) (a : amp) : Q := let pin := g_pin pt gain in ((Qmin ((pin + (a_gmax a)) + ext) (a_pmax a)) - pt).
